@@ -784,6 +784,7 @@ fn main() {
     let is_async = prop_early == "C20" || a.get("mode").map(|m| m == "async").unwrap_or(false);
     if let Some(f) = a.get("cases") {
         for line in std::fs::read_to_string(f).unwrap().lines() {
+            fbrh::util::crumb(line);
             if line.trim().is_empty() { continue; }
             let o = if is_async { exec_async(&cx, line, &mut out) } else { exec(&cx, line, &mut out) };
             out.case(line, &o);
@@ -809,6 +810,7 @@ fn main() {
                 _ => format!("notify=resend cap={}", cap),
             };
             out.stat(&format!("notify:{}", kind));
+            fbrh::util::crumb(&line);
             let o = exec(&cx, &line, &mut out);
             out.case(&line, &o);
         }
@@ -828,6 +830,7 @@ fn main() {
         out.stat(&format!("mut:{}", ks(&kvl, "mut")));
         out.stat(&format!("t:{}", ks(&kvl, "t")));
         out.stat(&format!("ans:{}", ks(&kvl, "ans")));
+        fbrh::util::crumb(&line);
         let o = if is_async { exec_async(&cx, &line, &mut out) } else { exec(&cx, &line, &mut out) };
         let rk = o.rsplit("ret=").next().unwrap_or("").to_string();
         out.stat(&format!("ret:{}", rk.split(':').take(if rk.starts_with("err") { 2 } else { 1 }).collect::<Vec<_>>().join(":")));
